@@ -367,9 +367,9 @@ def _key(ck, p, byk):
         for o in gsc:
             sp = arg_roots(f, pv, f.blocks[o[1]]["t"]["args"][1])
             spans = [x for x in sp if x[0] == "call" and last(norm(x[3] or "")) == "span"]
-            for x in spans:
-                if {y for y in flatten(pv.trace_operand(f.blocks[x[1]]["t"]["args"][0])) if y[0] == "call"} == chunk_src:
-                    a_ok = True
+            # every span that can feed the keyed characters must be the span of that very chunk
+            # (a fallback such as `sub.span().unwrap_or(chunk_span)` keys another slice's characters)
+            a_ok = bool(spans) and all({y for y in flatten(pv.trace_operand(f.blocks[x[1]]["t"]["args"][0])) if y[0] == "call"} == chunk_src for x in spans)
         ck.decide(rule, "chunk-cache:%s:chars" % what, a_ok, f.loc(t["ln"]), "(a) key contains the characters of the very chunk handed to run_on_chunk: %s" % a_ok)
         # (c) tokenisation: the key derives from the chunk's tokens themselves, not only from its outer span
         c_ok = False
